@@ -299,7 +299,9 @@ fn gen_rdata(r: &mut StdRng, eff_class: u16, pool: &[Labels], origin: &Option<La
             // WKS (IN): address, protocol, ports -> bitmap
             let a = [r.gen::<u8>(), r.gen(), r.gen(), r.gen()];
             let (proto, ptxt): (u8, String) = match r.gen_range(0..3) { 0 => (6, rcase(r, "TCP")), 1 => (17, rcase(r, "UDP")), _ => { let p: u8 = r.gen(); (p, p.to_string()) } };
-            let ports: Vec<u16> = (0..r.gen_range(0..5)).map(|_| r.gen_range(0..200)).collect();
+            let mut ports: Vec<u16> = (0..r.gen_range(0..5)).map(|_| r.gen_range(0..200)).collect();
+            // (a port may be listed twice: it is one bit all the same)
+            if !ports.is_empty() && r.gen_bool(0.25) { let p = *ports.choose(r).unwrap(); ports.push(p); }
             let mut rd = a.to_vec();
             rd.push(proto);
             let maxp = ports.iter().max().cloned();
@@ -415,6 +417,7 @@ pub fn render_file(r: &mut StdRng, includes: &[(usize, String)], depth_hint: usi
                 }
             }
             let mut line: Vec<u8> = Vec::new();
+            let mut early = false;
             let oform;
             if (want_rel_probe && origin.is_none()) || (rel_without_origin && origin.is_none() && first && r.gen_bool(0.3)) {
                 rel_without_origin = false;
@@ -430,6 +433,14 @@ pub fn render_file(r: &mut StdRng, includes: &[(usize, String)], depth_hint: usi
                 line.extend(sep(r));
                 oform = json!({"form": "blank", "labels": [], "name": [0]});
             } else {
+                // now and then the record's parenthesis opens before its first field, and the owner follows on the next
+                // physical line: the record still belongs to the line on which its logical line began
+                if r.gen_bool(0.06) {
+                    early = true;
+                    line.push(b'(');
+                    if r.gen_bool(0.3) { line.extend_from_slice(b" ; opens early"); }
+                    line.extend_from_slice(eol);
+                }
                 let (t, f) = name_text(r, &owner, &origin, true);
                 line.extend(t);
                 oform = f;
@@ -458,12 +469,12 @@ pub fn render_file(r: &mut StdRng, includes: &[(usize, String)], depth_hint: usi
             let eff_class = if class_p { class_v } else { prev_class };
             let mut rd = gen_rdata(r, eff_class, &pool, &origin);
             fields.push(std::mem::take(&mut rd.ty_txt).into_bytes());
-            let mut nl = 1;
+            let mut nl = if early { 2 } else { 1 };
             for f in &fields {
                 line.extend(sep(r));
                 line.extend(f);
             }
-            let paren = r.gen_bool(0.3);
+            let paren = !early && r.gen_bool(0.3);
             if paren {
                 line.extend(sep(r));
                 line.push(b'(');
@@ -486,6 +497,7 @@ pub fn render_file(r: &mut StdRng, includes: &[(usize, String)], depth_hint: usi
                 }
                 line.extend_from_slice(b" )");
             }
+            if early { line.extend_from_slice(b" )"); }
             if r.gen_bool(0.2) { line.extend_from_slice(b" ; trailing comment"); }
             line.extend_from_slice(eol);
             text.extend(line);
